@@ -56,6 +56,7 @@ struct rg_state {
   uint64_t tcommits;
   /* values recorded for post-conditions */
   uint64_t last_load;     /* value returned by my last load (or failed CAS) */
+  _Bool last_load_acq;    /* that load was an acquire operation */
   uint64_t load_commits;  /* commits at that instant */
   uint64_t rmw_old;       /* value my last successful read-modify-write replaced */
   uint64_t rmw_commits;
@@ -207,6 +208,7 @@ static inline void rg_note_load(uint64_t v, int mo)
 {
   G.nops++;
   G.last_load = v;
+  G.last_load_acq = VERIF_IS_ACQUIRE(mo);
   G.load_commits = G.commits;
   if(VERIF_IS_ACQUIRE(mo)) G.E_in_me = G.E_in_me || G.E_in_word; else G.E_pending = G.E_pending || G.E_in_word;
 }
